@@ -33,7 +33,7 @@ Vis(file) == [file EXCEPT !.ana = [id \in DOMAIN file.ana |->
 Expected(pre, e) ==
   LET f0 == Abs(pre)
       refused == Refused(f0, e.id, e.fit)
-      steps == StepsFor(f0, e.id, e.hash)
+      steps == StepsFor(f0, e.id, e.hash, e.fit)
       n == IF e.crash = 0 \/ e.crash > Len(steps) THEN Len(steps)
            ELSE e.crash - 1
   IN IF refused
@@ -61,6 +61,10 @@ Clauses(pre, e) ==
   C16_BytesOfOthers |-> e.others_bytes_same,
   C16_RefusedFileUnchanged |-> (e.out = "refused") => e.file_bytes_same,
   \* owed as soon as anything loadable is stored
+  \* the container only ever grows: what was loadable stays loadable, with
+  \* the same fit
+  C16_OnlyGrows     |-> \A id \in Load(f0) :
+                           id \in Load(post) /\ post.ana[id].fit = f0.ana[id].fit,
   C16_LoadReadable  |-> (Load(post) # {}) => e.post.load_ok,
   C16_LoadSet       |-> e.post.load_ok => (ToS(e.post.loaded) = Load(post)),
   C16_RatedAgrees   |-> e.post.load_ok => (ToS(e.post.rated) = Load(post)),
